@@ -245,3 +245,70 @@ pub fn lone_cr_after_line_bound_token(input: &str) -> bool {
     }
     false
 }
+
+/// signature of a known finding: a statement holds two or more multi-line literals (no `;`
+/// between them); re-indenting the first can move the second after it was re-indented
+pub fn two_mlstr_in_statement(text: &str) -> bool {
+    let mut n = 0;
+    for t in refscan::scan(text) {
+        match t.kind {
+            RK::MlStr => {
+                n += 1;
+                if n >= 2 {
+                    return true;
+                }
+            }
+            RK::Op if t.text(text) == ";" => n = 0,
+            _ => {}
+        }
+    }
+    false
+}
+
+/// non-blank ordinal ranges of the logical lines of the given types (by pasfmt's own parse of
+/// the input; used only to compute signatures of known findings)
+pub fn line_type_nb_ranges(input: &str, types: &[pasfmt_core::prelude::LogicalLineType]) -> Vec<(usize, usize)> {
+    use pasfmt_core::prelude::*;
+    let Ok(p) = exec::lex_parse(input, exec::SOFT_STEP_LIMIT) else { return vec![] };
+    let mut spans = Vec::with_capacity(p.tokens.len());
+    let mut pos = 0usize;
+    for t in &p.tokens {
+        let ws = t.get_leading_whitespace().len();
+        let l = t.get_content().len();
+        spans.push((pos + ws, pos + ws + l));
+        pos += ws + l;
+    }
+    let nb = NbIndex::new(input);
+    let mut out = vec![];
+    for l in &p.lines {
+        if types.contains(&l.get_line_type()) {
+            if let (Some(&a), Some(&b)) = (l.get_tokens().first(), l.get_tokens().last()) {
+                if let (Some(sa), Some(sb)) = (spans.get(a), spans.get(b)) {
+                    // include a trailing comment on the same line: extend to the next token start
+                    let end = spans.get(b + 1).map(|x| x.0).unwrap_or(sb.1);
+                    out.push((nb.ordinal_at(sa.0), nb.ordinal_at(end.max(sb.1))));
+                }
+            }
+        }
+    }
+    out
+}
+
+/// non-blank ordinals at which a physical line starts
+pub fn line_start_ordinals(text: &str) -> std::collections::BTreeSet<usize> {
+    let mut set = std::collections::BTreeSet::new();
+    let mut ord = 0usize;
+    let mut at_line_start = true;
+    for c in text.chars() {
+        if c == '\n' || c == '\r' {
+            at_line_start = true;
+        } else if !refscan::is_blank_char(c) {
+            if at_line_start {
+                set.insert(ord);
+                at_line_start = false;
+            }
+            ord += 1;
+        }
+    }
+    set
+}
